@@ -225,6 +225,9 @@ def _drive(ex, clos, L, w, make_args):
     fn = _closure_fn(ex, clos)
     holder = Cell(clos)
     outs = []
+    if w == 0 and L == 0:
+        ex.outputs = []          # `*_to` drivers return before touching anything on an empty series
+        return VOpt(True, VOpaque("out", []))
     if w == 0:
         # default bodies assert window > 0; the Vec/ndarray fast paths return an unwritten buffer:
         # either way no defined output — recorded as an obligation failure of the *call*.
